@@ -27,7 +27,17 @@
 //!     the chunk count unchanged and nothing allocated, dropping the pool returns every chunk to the
 //!     base allocator (ledger of the counting allocator; forgotten guards keep theirs).
 //!
+//!   * atomicity of pop-or-create, steered deterministically (`probe` mode; random schedules practically never
+//!     hit the window): with the only arena handed out, the probing thread calls one of the six `get*` variants
+//!     with a thread-local PROBE flag set; inside the base allocator's `allocate` — i.e. while the pool is
+//!     creating the fallback arena — it asks a partner thread to drop the live guard NOW and waits ~50 ms for
+//!     the partner's "drop finished" flag.  The pool holds its mutex while creating, so the partner's drop
+//!     blocks until the creation is over and the flag cannot be set inside the window; if it is, the creation
+//!     ran outside the critical section: the returned arena sat idle while a new one was made (arenas created
+//!     2 > peak of simultaneously live guards 1) → `oracle C19 CREATE-OUTSIDE-LOCK <variant> …`;
+//!
 //!   pool <cases> <single|threads|mixed>       env: VERIF_SEED
+//!   pool <probes per get variant> probe
 //!
 //! Output: `pool-new …` / `op … => <observed>` / `q … => <observed>` / `oracle C19 <message>` / `# …`.
 
@@ -39,7 +49,7 @@ use std::collections::{HashMap, HashSet};
 use std::fmt::Write as _;
 use std::panic::{AssertUnwindSafe, catch_unwind};
 use std::ptr::NonNull;
-use std::sync::atomic::{AtomicUsize, Ordering::SeqCst};
+use std::sync::atomic::{AtomicBool, AtomicUsize, Ordering::SeqCst};
 use std::sync::{Barrier, Mutex};
 
 use bump_scope::alloc::{AllocError, Allocator, Global};
@@ -58,7 +68,16 @@ static CA_ALLOCS: AtomicUsize = AtomicUsize::new(0);
 static CA_FAILS: AtomicUsize = AtomicUsize::new(0);
 static CA_DEALLOCS: AtomicUsize = AtomicUsize::new(0);
 
+// probe of the pop-or-create critical section (see `run_probe`)
+static PROBE_DROP_REQUESTED: AtomicBool = AtomicBool::new(false);
+static PROBE_DROP_COMPLETED: AtomicBool = AtomicBool::new(false);
+static PROBE_HIT: AtomicBool = AtomicBool::new(false);
+static PROBE_IN_WINDOW: AtomicBool = AtomicBool::new(false);
+const PROBE_WINDOW: std::time::Duration = std::time::Duration::from_millis(50);
+
 thread_local! {
+    /// the calling thread's next base-allocator request is the creation of a fallback arena by a probed `get*`
+    static PROBE_ARMED: Cell<bool> = const { Cell::new(false) };
     /// the calling thread's next base-allocator request fails (armed only around one `try_get*`)
     static FAIL_ARMED: Cell<bool> = const { Cell::new(false) };
     /// blocks the calling thread returned to the base allocator
@@ -72,6 +91,17 @@ struct CA;
 
 unsafe impl Allocator for CA {
     fn allocate(&self, layout: Layout) -> Result<NonNull<[u8]>, AllocError> {
+        if PROBE_ARMED.with(|f| f.replace(false)) {
+            // we are inside a `get*` that found no idle arena and is creating one: ask the partner to drop its
+            // guard now and give it a window to finish.  It can only finish if the pool mutex is not held.
+            PROBE_HIT.store(true, SeqCst);
+            PROBE_DROP_REQUESTED.store(true, SeqCst);
+            let deadline = std::time::Instant::now() + PROBE_WINDOW;
+            while !PROBE_DROP_COMPLETED.load(SeqCst) && std::time::Instant::now() < deadline {
+                std::thread::yield_now();
+            }
+            PROBE_IN_WINDOW.store(PROBE_DROP_COMPLETED.load(SeqCst), SeqCst);
+        }
         if FAIL_ARMED.with(|f| f.get()) {
             CA_FAILS.fetch_add(1, SeqCst);
             return Err(AllocError);
@@ -200,6 +230,9 @@ struct Totals {
     ops: HashMap<&'static str, u64>,
     variants: [u64; 10],
     get_panics: u64,
+    probes: u64,
+    probes_blocked: u64,
+    probes_not_reached: u64,
     puts_after_poison: u64, // guard drops while the mutex was poisoned
     poisoned_cases: u64,
     overflow_reused: u64,   // overflowing get* that found an idle arena (nothing constructed, nothing panics)
@@ -1010,6 +1043,140 @@ fn dispatch(which: u64, case_seed: u64, threaded: bool, cx: &mut CaseCtx<'_>) {
     }
 }
 
+// ------------------------------------------------------------------------------------------------
+// probe: is "no idle arena found" + "create one" a single critical section?
+
+const VARIANT_NAMES: [&str; 6] = ["get", "try_get", "get_with_size", "try_get_with_size", "get_with_capacity", "try_get_with_capacity"];
+
+/// what one side of a probe reports: (lock ticket of its pool operation, it went as planned)
+type ProbeSide = (usize, bool);
+
+fn run_probe<S: BumpAllocatorSettings + 'static>(crew: &Crew, variant: usize, cfg: &str, rng: &mut Rng, out: &mut String, t: &mut Totals)
+where
+    CA: BaseAllocator<S::GuaranteedAllocated>,
+{
+    let name = VARIANT_NAMES[variant];
+    let outstanding0 = CA_OUTSTANDING.load(SeqCst);
+    let mut pool: BumpPool<CA, S> = BumpPool::new_in(CA);
+    for f in [&PROBE_DROP_REQUESTED, &PROBE_DROP_COMPLETED, &PROBE_HIT, &PROBE_IN_WINDOW] {
+        f.store(false, SeqCst);
+    }
+    let size = *rng.pick(&[0usize, 64, 512, 1000, 4096]);
+    let layout = Layout::from_size_align(*rng.pick(&[1usize, 24, 600, 3000]), 1 << rng.below(5)).unwrap();
+    let (first_ok, second_ok, n_arenas);
+    let (mut t_get, mut t_put) = (0usize, 0usize);
+    {
+        let pool_ref = &pool;
+        // arena #1, handed out: from now on no idle arena exists
+        let b = pool_ref.get();
+        let first: &[u8] = b.alloc_slice_copy(&(0..40).map(|i| pat(7, i)).collect::<Vec<u8>>()).into_ref();
+        let spin_until = |flag: &AtomicBool| {
+            let deadline = std::time::Instant::now() + std::time::Duration::from_secs(2);
+            while !flag.load(SeqCst) && std::time::Instant::now() < deadline {
+                std::thread::yield_now();
+            }
+            flag.load(SeqCst)
+        };
+        let prober: Box<dyn FnOnce() -> ProbeSide + Send + '_> = Box::new(move || {
+            PROBE_ARMED.with(|f| f.set(true));
+            let a = match variant {
+                0 => Ok(pool_ref.get()),
+                1 => pool_ref.try_get(),
+                2 => Ok(pool_ref.get_with_size(size)),
+                3 => pool_ref.try_get_with_size(size),
+                4 => Ok(pool_ref.get_with_capacity(layout)),
+                _ => pool_ref.try_get_with_capacity(layout),
+            };
+            let ticket = last_pool_lock().0;
+            PROBE_ARMED.with(|f| f.set(false));
+            let ok = match &a {
+                Ok(g) => {
+                    let second: &[u8] = g.alloc_slice_copy(&(0..40).map(|i| pat(8, i)).collect::<Vec<u8>>()).into_ref();
+                    intact(8, second)
+                }
+                Err(_) => false,
+            };
+            // keep the second guard until the partner is done, then return it
+            spin_until(&PROBE_DROP_COMPLETED);
+            drop(a);
+            (ticket, ok)
+        });
+        let partner: Box<dyn FnOnce() -> ProbeSide + Send + '_> = Box::new(move || {
+            let asked = spin_until(&PROBE_DROP_REQUESTED);
+            drop(b);
+            let ticket = last_pool_lock().0;
+            PROBE_DROP_COMPLETED.store(true, SeqCst);
+            (ticket, asked)
+        });
+        let mut res = crew.scoped(vec![prober, partner]).into_iter();
+        match (res.next(), res.next()) {
+            (Some(Ok((tg, ok_a))), Some(Ok((tp, asked)))) => {
+                t_get = tg;
+                t_put = tp;
+                second_ok = ok_a && asked;
+            }
+            _ => second_ok = false,
+        }
+        first_ok = intact(7, first);
+    }
+    n_arenas = pool.bumps().len();
+    drop(pool);
+    let hit = PROBE_HIT.load(SeqCst);
+    let in_window = PROBE_IN_WINDOW.load(SeqCst);
+    t.probes += 1;
+    let verdict = if !hit {
+        t.probes_not_reached += 1;
+        "not-reached"
+    } else if in_window {
+        "CREATE-OUTSIDE-LOCK"
+    } else {
+        t.probes_blocked += 1;
+        "drop-blocked-until-created"
+    };
+    let _ = writeln!(out, "probe {name} cfg={cfg} arenas={n_arenas} get-ticket={t_get} drop-ticket={t_put} => {verdict}");
+    if hit && in_window {
+        oracle(out, t, &format!(
+            "CREATE-OUTSIDE-LOCK {name}: a guard drop completed while the pool was creating an arena for a get that had found no idle arena \
+             (the returned arena sat idle while a new one was created: {n_arenas} arenas for a peak of 1 simultaneously live guard)"));
+    }
+    if hit && !in_window && t_put <= t_get {
+        oracle(out, t, &format!("PROBE {name}: the partner's guard drop (ticket {t_put}) did not come after the probed get (ticket {t_get}) although it was only requested during that get"));
+    }
+    if !hit || !second_ok || !first_ok || n_arenas != 2 {
+        oracle(out, t, &format!("PROBE {name}: the probe did not run as planned (allocate reached: {hit}, guards/blocks fine: {}, arenas afterwards: {n_arenas}, expected 2)", second_ok && first_ok));
+    }
+    if CA_OUTSTANDING.load(SeqCst) != outstanding0 {
+        oracle(out, t, &format!("PROBE {name}: dropping the pool left {} chunks outstanding", CA_OUTSTANDING.load(SeqCst) as isize - outstanding0 as isize));
+    }
+}
+
+fn probes(per_variant: u64, crew: &Crew, t: &mut Totals) {
+    let mut rng = Rng::new(seed() ^ 0x7072_6f62);
+    let mut n = 0u64;
+    for round in 0..per_variant {
+        for variant in 0..6 {
+            let mut out = String::new();
+            println!("# case {n} probe {} round {round}", VARIANT_NAMES[variant]);
+            let res = catch_unwind(AssertUnwindSafe(|| {
+                if (round + variant as u64) % 2 == 0 {
+                    run_probe::<SUp>(crew, variant, "up", &mut rng.clone(), &mut out, t)
+                } else {
+                    run_probe::<SDown>(crew, variant, "down", &mut rng.clone(), &mut out, t)
+                }
+            }));
+            rng.next();
+            PROBE_ARMED.with(|f| f.set(false));
+            print!("{out}");
+            if res.is_err() {
+                t.oracle_lines += 1;
+                println!("oracle {PROP} panic inside a probe of {}", VARIANT_NAMES[variant]);
+            }
+            n += 1;
+        }
+    }
+    println!("# probes total={} drop-blocked-until-created={} not-reached={} window-ms={} oracle-lines={}", t.probes, t.probes_blocked, t.probes_not_reached, PROBE_WINDOW.as_millis(), t.oracle_lines);
+}
+
 fn main() {
     let args: Vec<String> = std::env::args().collect();
     let cases: u64 = args.get(1).and_then(|s| s.parse().ok()).unwrap_or(20);
@@ -1020,6 +1187,10 @@ fn main() {
     println!("# pool cases={cases} mode={mode} seed={}", seed());
     std::panic::set_hook(Box::new(|_| {}));
     let crew = Crew::new(16);
+    if mode == "probe" {
+        probes(cases, &crew, &mut t);
+        return;
+    }
     for case in 0..cases {
         let case_seed = rng.next();
         let threaded = match mode.as_str() {
